@@ -168,13 +168,14 @@ func TypeAwareUnmarshalValue(self interface{}, typ ast.Type) *Value {
 
 // Decodes a JSON document for `parse_json`. Numbers are kept as written (`json.Number`) so that
 // `UnmarshalValue` can tell ints from floats by their spelling and large ints are not rounded to a float.
-// Syntax errors and trailing data are reported exactly like `json.Unmarshal` reports them.
+// Syntax errors, trailing data and numbers beyond the float range are reported exactly like `json.Unmarshal`
+// reports them (the first one in the order of the document, not in the order in which a map is walked later).
 func decodeJson(text string) (interface{}, error) {
-	var checked json.RawMessage
+	var checked interface{}
 	if err := json.Unmarshal([]byte(text), &checked); err != nil {
 		return nil, err
 	}
-	decoder := json.NewDecoder(bytes.NewReader(checked))
+	decoder := json.NewDecoder(bytes.NewReader([]byte(text)))
 	decoder.UseNumber()
 	var raw interface{}
 	if err := decoder.Decode(&raw); err != nil {
